@@ -192,14 +192,33 @@ def build_lexmodel():
     os.replace(os.path.join(OCAML, "lexmodel.tmp"), LEXMODEL)
 
 
-def run_lexmodel(case_text, artifacts=True, timeout=1200):
+class ModelResource(Exception):
+    """the extracted model ran out of its time or memory budget on this input (the reference matcher works with
+    derivatives and can blow up on highly ambiguous regexes and long inputs): not a verdict about anything"""
+
+
+def _limit_as(gb):
+    import resource
+
+    def f():
+        resource.setrlimit(resource.RLIMIT_AS, (gb << 30, gb << 30))
+    return f
+
+
+def run_lexmodel(case_text, artifacts=True, timeout=1200, mem_gb=None):
     p = os.path.join(BUILD, "cases_%d_%s.txt" % (os.getpid(), hashlib.md5(case_text.encode()).hexdigest()[:8]))
     with open(p, "w") as f:
         f.write(case_text)
     try:
         cmd = [LEXMODEL] + ([] if artifacts else ["--no-artifacts"]) + [p]
-        r = subprocess.run(cmd, stdout=subprocess.PIPE, stderr=subprocess.PIPE, text=True, timeout=timeout)
+        try:
+            r = subprocess.run(cmd, stdout=subprocess.PIPE, stderr=subprocess.PIPE, text=True, timeout=timeout,
+                               preexec_fn=_limit_as(mem_gb) if mem_gb else None)
+        except subprocess.TimeoutExpired:
+            raise ModelResource("time-out after %d s" % timeout)
         if r.returncode != 0:
+            if r.returncode in (-9, -6) or "out of memory" in r.stderr.lower() or "stack overflow" in r.stderr.lower():
+                raise ModelResource("exit %d: %s" % (r.returncode, r.stderr[-200:]))
             raise Broken("model-driver", "exit %d: %s" % (r.returncode, r.stderr[-2000:]))
         return r.stdout
     finally:
